@@ -228,7 +228,19 @@ func (in *inst) file(name string, f *ast.File) {
 					in.block(name, fn, b.List)
 				}
 			case *ast.GoStmt:
-				in.unsupported("go statement", x.Pos())
+				c := x.Call
+				if c.Ellipsis.IsValid() {
+					in.unsupported("go statement with a spread argument", x.Pos())
+				} else {
+					// go F(A, B) -> simhook.GoCall(F, A, B): F, A, B are evaluated now, the call runs as a new task
+					in.add(name, x.Pos(), c.Fun.Pos(), in.hook+".GoCall(")
+					if len(c.Args) == 0 {
+						in.add(name, c.Fun.End(), c.End(), ")")
+					} else {
+						in.add(name, c.Fun.End(), c.Args[0].Pos(), ", ")
+					}
+					in.seamAt("go statement", x.Pos())
+				}
 			case *ast.SelectStmt:
 				hasDefault := false
 				for _, c := range x.Body.List {
@@ -552,7 +564,9 @@ func (in *inst) expr(file string, n ast.Node, timeUsed *string) {
 			wrap("RLock")
 		case "(*sync.Once).Do":
 			wrap("OnceDo")
-		case "(*sync.WaitGroup).Wait", "(*sync.Cond).Wait":
+		case "(*sync.WaitGroup).Wait":
+			wrap("WGWait")
+		case "(*sync.Cond).Wait":
 			in.unsupported(full, x.Pos())
 		}
 	}
